@@ -204,6 +204,17 @@ func c01worker(arg string) {
 			if janitor && ii == 1 {
 				continue
 			}
+			if strings.HasPrefix(init.name, "grown-") {
+				// the capacity-threshold start states matter for atomicity (C02 runs them all); for the
+				// race/panic/deadlock oracle one (thorough: four) of them per type is enough
+				keep := strings.HasSuffix(init.name, "-to-16")
+				if thorough {
+					keep = keep || strings.HasSuffix(init.name, "-to-8") || strings.HasSuffix(init.name, "-to-17") || strings.HasSuffix(init.name, "-to-32")
+				}
+				if !keep {
+					continue
+				}
+			}
 			for vi, oa := range a.ops {
 				for vj, ob := range b.ops {
 					if janitor && (vi > 0 || vj > 0) {
